@@ -105,7 +105,17 @@ RECURSIVE FlatCps(_)
 FlatCps(runs) == IF runs = <<>> THEN <<>> ELSE Head(runs).t \o FlatCps(Tail(runs))
 TextIn(cps, sets) == Len(cps) = Len(sets) /\ \A i \in DOMAIN cps : cps[i] \in sets[i]
 
-LineOK(got, exp) ==
+\* two adjacent runs with the same colour and height are one run (no reader can tell them apart on screen): both
+\* sides are compared after merging them
+RECURSIVE MergeRuns(_)
+MergeRuns(runs) ==
+  IF Len(runs) < 2 THEN runs
+  ELSE IF runs[1].col = runs[2].col /\ runs[1].dh = runs[2].dh
+       THEN MergeRuns(<<[runs[1] EXCEPT !.t = @ \o runs[2].t]>> \o SubSeq(runs, 3, Len(runs)))
+       ELSE <<runs[1]>> \o MergeRuns(Tail(runs))
+
+LineOK(got0, exp0) ==
+  LET got == MergeRuns(got0) exp == [exp0 EXCEPT !.runs = MergeRuns(@)] IN
   IF exp.textonly THEN TextIn(SelectSeq(FlatCps(got), LAMBDA c : c # 32), SelectSeq(FlatSets(exp.runs), LAMBDA s : s # {32}))
   ELSE /\ Len(got) = Len(exp.runs)
        /\ \A i \in DOMAIN got : TextIn(got[i].t, exp.runs[i].t) /\ got[i].col = exp.runs[i].col
